@@ -402,6 +402,13 @@ theorem inv_step {s s' : St} {tid : Nat} {op : Op} (hinv : Inv s) (h : step s ti
         ⟨failSync_of_eq hinv.sync rfl rfl, ⟨hinv.held.1, hinv.held.2⟩⟩
       refine inv_stepped hinv' tid false _ ?_ h
       intro l st t loc; simp [failsAt]
+  | attachAbort =>
+    simp only [step] at h
+    cases hf : s.prepared.find? (fun p => p.tid == tid) with
+    | none => rw [hf] at h; cases h
+    | some p =>
+      rw [hf] at h; simp only at h; injection h with h; subst h
+      exact ⟨failSync_of_eq hinv.sync rfl rfl, ⟨hinv.held.1, hinv.held.2⟩⟩
   | threadCreate newTid =>
     simp only [step, withCursor] at h
     cases hc : getCursor s tid with
